@@ -45,6 +45,11 @@ class Stream:
         """do the two observations agree?  (equality, unless a stream compares sets of outcomes)"""
         return impl_obs == model_obs
 
+    def unmodelled(self, impl_obs, model_obs):
+        """is the case outside what the model covers (skipped and counted)?  A stream whose observation is a sequence may
+        override this together with `same` to compare the modelled positions only"""
+        return (model_obs is not None and 'UNMODELLED' in model_obs) or impl_obs.startswith('SKIP')
+
     def key(self, case):
         return core.digest(case)
 
@@ -232,7 +237,7 @@ def run_check(prop, streams, argv, level_text='', trusted_base=(), assumptions=(
                 oc = st.oracle(c, io)
             except Exception:  # noqa
                 oc = 'oracle crashed: ' + traceback.format_exc()[-500:]
-            unmod = (mo is not None and 'UNMODELLED' in mo) or io.startswith('SKIP')
+            unmod = st.unmodelled(io, mo)
             if unmod:
                 n_unmod += 1
             bucket = (io or '')[:1] if not io.startswith(('E:', 'B:')) else io.split(' ')[0][:24]
@@ -267,7 +272,7 @@ def run_check(prop, streams, argv, level_text='', trusted_base=(), assumptions=(
                         o = st.oracle(x, a)
                     except Exception:  # noqa
                         o = None
-                    d = b is not None and 'UNMODELLED' not in b and not st.same(a, b) and not a.startswith('SKIP')
+                    d = b is not None and not st.unmodelled(a, b) and not st.same(a, b)
                     k2 = st.classify(x, a, b)
                     out.append((o is not None or d) and not (k2 and k2 in known_open))
                 return out
@@ -284,7 +289,7 @@ def run_check(prop, streams, argv, level_text='', trusted_base=(), assumptions=(
             except Exception:  # noqa
                 oc2 = oc
             def still_fails(x, a, b, o):
-                d_ = b is not None and 'UNMODELLED' not in b and not a.startswith('SKIP') and not st.same(a, b)
+                d_ = b is not None and not st.unmodelled(a, b) and not st.same(a, b)
                 return o is not None or d_
             if not replay and not still_fails(small, io2, mo2, oc2):
                 # the minimised case does not fail when evaluated again: fall back to the case as generated, and
